@@ -1,9 +1,27 @@
-From Tramp Require Import Model.Base Model.Sys Check.SysCheck Props.C14.
+From Tramp Require Import Model.Base Model.Sys Check.SysCheck Proofs.IsolationRun Props.C14.
 Check C14_event_is_local : forall w g h ev sel,
   let ev' := match ev with EvDeliver c _ => EvDeliver c sel | x => x end in
   get_comp (fst (gstep w g (GEv h ev) sel)) h = fst (step (w_cfg w) (get_comp g h) ev') /\
   snd (gstep w g (GEv h ev) sel) = map (lift_out h) (snd (step (w_cfg w) (get_comp g h) ev')) /\
   forall h', h <> h' -> get_comp (fst (gstep w g (GEv h ev) sel)) h' = get_comp g h'.
+Check C14_noninterference : forall w h evs1 evs2 g1 g2,
+  forallb no_burst evs1 = true -> forallb no_burst evs2 = true ->
+  view w h evs1 = view w h evs2 -> same_for h g1 g2 ->
+  same_for h (grun w g1 evs1) (grun w g2 evs2).
+Check C14_alone_or_among_others : forall w h evs g,
+  forallb no_burst evs = true -> same_for h (grun w g evs) (grun w g (view w h evs)).
+Check (eq_refl : concerns = fun w h ev =>
+  match ev with
+  | GHtlc rq => match gclassify w rq with KTramp h' _ => Nat.eqb h' h | _ => false end
+  | GEv h' _ | GTimeout h' _ => Nat.eqb h' h
+  | GTick _ | GHeight _ | GCrash => true
+  | GHang _ | GBurst _ => false
+  end).
+Check (eq_refl : view = fun w h evs => filter (fun x => concerns w h (fst x)) evs).
+Check (eq_refl : same_for = fun h g1 g2 => get_comp g1 h = get_comp g2 h /\ gnow g1 = gnow g2 /\ gheight g1 = gheight g2).
+Check (eq_refl : grun = fun w g evs => fold_left (fun g x => fst (gstep w g (fst x) (snd x))) evs g).
 Print Assumptions C14_event_is_local.
 Print Assumptions C14_htlc_is_local.
 Print Assumptions C14_global_events_pointwise.
+Print Assumptions C14_noninterference.
+Print Assumptions C14_alone_or_among_others.
